@@ -11,6 +11,8 @@ func Run(prop, tier string, c *kernel.Chooser, r *kernel.Recorder) *kernel.Viola
 		return runC10(prop, tier, c, r)
 	case "C11":
 		return runC11(prop, tier, c, r)
+	case "C12":
+		return runC12(prop, tier, c, r)
 	case "C17":
 		return runC17(prop, tier, c, r)
 	}
